@@ -2392,7 +2392,18 @@ class ResetIndex(Elemwise):
                         result = RenameSeries(result, col)
                     return result
                 return
-            result = plain_column_projection(self, parent, dependents)
+            additional = None
+            if (
+                not self.drop
+                and "index" in self.frame.columns
+                and self._meta.columns[0] == "level_0"
+            ):
+                # pandas labels the former index "level_0" because there is a
+                # column "index": selecting the former index needs that column
+                needed = determine_column_projection(self, parent, dependents)
+                if "level_0" in (needed if isinstance(needed, list) else [needed]):
+                    additional = ["index"]
+            result = plain_column_projection(self, parent, dependents, additional)
             if result is not None and not set(result.columns) == set(
                 result.frame.columns
             ):
